@@ -14,6 +14,10 @@ def tagged_program(rng):
     c = gen.plugin_step("c", Expr(In("tag")), extra_input={"a": {"x": Opt(Ref("a", "outputs", "success", "tag"), rng.random() < 0.5),
                                                               "y": [OneOf("kind", {"ra": Expr(Ref("a", "outputs", "success")), "rb": Expr(Ref("b", "outputs", "success"))})]}})
     outs = {"success": {"c": gen.tagref("c"), "od": OrDisabled(Ref("a", "outputs", "success")), "opt": {"inner": Opt(Ref("b", "outputs", "error", "reason"), rng.random() < 0.5)}}}
+    if rng.random() < 0.7:
+        # optional-tagged and ordinary keys side by side in one map (at two levels)
+        outs["success"]["opt"].update({"plain": gen.tagref("b"), "k": "lit", "z_last": Expr(In("n"))})
+        outs["success"]["top_opt"] = Opt(Ref("a", "outputs", "success", "tag"), rng.random() < 0.5)
     if rng.random() < 0.5:
         c.fields["wait_for"] = {"w": Opt(Ref("b", "outputs", "success"), True)}
         # same relative path in two fields of one stage would collide on the group id: use distinct keys
